@@ -135,6 +135,10 @@ class K4Sem(Suite):
         n = self.n_quick if tier == "quick" else self.n_thorough
         for _ in range(n):
             case = pipes.gen_case(random.Random(rng.getrandbits(64)), tier, **self.opts)
+            if pipes.est_rows(case) > pipes.MAX_EST_ROWS:
+                k = "skipped: estimated intermediate rows > %d" % pipes.MAX_EST_ROWS
+                self.distribution[k] = self.distribution.get(k, 0) + 1
+                continue
             for c in case["meta"].get("calls", []):
                 self.distribution[c] = self.distribution.get(c, 0) + 1
             yield {"tables": case["tables"], "pipe": case["pipe"]}
